@@ -48,6 +48,7 @@ FileV(e) ==
   ELSE IF \E a, b \in T : a[3] = 1 /\ b[3] > 1 /\ b[1] > a[1] THEN "overview_tile_data_after_full_resolution_data"
   ELSE IF ~(e.decode_rio /\ e.decode_tifffile /\ e.overviews_decodable) THEN "independent_reader_does_not_decode_the_original_pixels"
   ELSE IF ~(e.transform_ok /\ e.crs_ok /\ e.nodata_ok) THEN "transform_crs_or_nodata_not_preserved"
+  ELSE IF "tb" \in DOMAIN e.c THEN "ok"
   ELSE IF <<P[1].h, P[1].w, n>> # <<CogSpec(e.c.h, e.c.w, e.c.blocks[Len(e.c.blocks)]).h, CogSpec(e.c.h, e.c.w, e.c.blocks[Len(e.c.blocks)]).w, CogSpec(e.c.h, e.c.w, e.c.blocks[Len(e.c.blocks)]).n>> THEN "drift"
   ELSE "ok"
 =============================================================================
